@@ -10,30 +10,30 @@ package types
 //@      && p.ComplaintRetrospect > 0 && p.ArbitrationTimeLimit > 0 && p.TxSizeLimit > 0
 //@      && ufb("denom_valid", p.BaseDenom) && ufb("coins_valid", p.MinDeposit)
 
-//@ func Params.Validate
+//@ func Params.Validate()
 //@   property C16
 //@   returns err
 //@   ensures valid: err == nil ==> paramsOK(p)
 //@ end
 
 // JSON syntax check of the options string (assumed: pure)
-//@ func ValidateOptions
+//@ func ValidateOptions(options)
 //@   property C07
 //@   trusted
 //@   returns err
 //@ end
-//@ func ValidateResponseOutput
+//@ func ValidateResponseOutput(output)
 //@   property C07, C08
 //@   trusted
 //@   returns err
 //@ end
-//@ func ValidateRequestContextUpdating
+//@ func ValidateRequestContextUpdating(providers, serviceFeeCap, timeout, repeatedFrequency, repeatedTotal)
 //@   property C08, C13
 //@   trusted
 //@   returns err
 //@ end
 // event tag built by string concatenation (pure)
-//@ func ActionTag
+//@ func ActionTag(action, tagKeys)
 //@   property C13
 //@   trusted
 //@   returns tag
@@ -42,7 +42,7 @@ package types
 
 // A request id is the context id followed by batch counter, height and index (assumed contract: context ids have one
 // fixed length, so the id decodes uniquely - the two projections are what SplitRequestID returns)
-//@ func GenerateRequestID
+//@ func GenerateRequestID(requestContextID, requestContextBatchCounter, requestHeight, batchRequestIndex)
 //@   property C08, C13
 //@   trusted
 //@   returns id
